@@ -4,13 +4,17 @@ Rules (MIR of zbus, configuration K1):
   M-NAMES    the two bus calls are call_method(Some("org.freedesktop.DBus"), "/org/freedesktop/DBus",
              Some("org.freedesktop.DBus"), "AddMatch" | "RemoveMatch", <the rule of the entry>)
   M-ADD      add_match: `AddMatch` is issued only on the Vacant edge of `subscriptions.entry(rule)` (never
-             for a rule that already has subscribers), under is_bus() && msg_type == Signal where msg_type
-             is `rule.msg_type().unwrap_or(Signal)`; on that edge the (1, receiver) entry is inserted only
-             after the awaited AddMatch succeeded (`?`: the Break arm inserts nothing)
+             for a rule that already has subscribers), under is_bus() && msg_type == Type::Signal where
+             msg_type is `rule.msg_type().unwrap_or(Signal)` (the compared constant is read from the promoted
+             constant's value); on the Vacant edge the (1, receiver) entry is reached only through the
+             awaited AddMatch or the not-a-bus / not-a-signal edges, and a failed AddMatch (`?`) inserts nothing
   M-REMOVE   remove_match: `RemoveMatch` is issued only on the `count == 0` edge after the decrement, under
-             is_bus() && msg_type == Signal; on that edge the entry is removed only after the awaited call
+             is_bus() && msg_type == Type::Signal; the entry is removed only after the awaited call (or over
+             the not-a-bus / not-a-signal edges)
   M-GUARD    the MutexGuard of ConnectionInner.subscriptions is held (rustc coroutine layout) across the
-             await of both bus calls, so add/remove of one rule cannot interleave
+             await of both bus calls and is neither moved nor dropped on any path before them (the layout
+             alone over-approximates: a borrowed-then-moved guard stays in the witness), so add/remove of one
+             rule cannot interleave
   M-WHO      the member strings "AddMatch"/"RemoveMatch" are used only by add_match / remove_match and the
              generated fdo::DBusProxy methods, which nothing inside zbus calls; remove_match is called only by
              queue_remove_match's task, MessageStream::async_drop and the lost-race path of
@@ -81,11 +85,13 @@ def signal_conditions(ctx, f, body, rule, tag, call):
     """is_bus() true edge and (msg_type == Signal) true edge both dominate `call`; returns the block that is the
     innermost true target (start of the region that must go through the bus call)"""
     isb = []
+    skips = []   # (switch block, false target): the edges on which the bus call is legitimately not made
     for c in mir.calls(body):
         if c.is_("Connection::is_bus"):
             for sb, tt, ft in L.bool_switches_on_call(body, c):
                 if L.edge_dominates(body, sb, tt, call.b):
                     isb.append(tt)
+                    skips.append((sb, ft))
     ctx.ob(rule, tag + "only-on-a-bus", bool(isb), "the bus call is made only when is_bus() is true" if isb else
            "the bus call is not guarded by is_bus()", call.where)
     # msg_type local: rule.msg_type().unwrap_or(Type::Signal)
@@ -101,42 +107,39 @@ def signal_conditions(ctx, f, body, rule, tag, call):
     ctx.ob(rule, tag + "msg_type-defaults-to-signal", bool(mt_locals),
            "the tested type is rule.msg_type().unwrap_or(Signal)" if mt_locals else "no `rule.msg_type().unwrap_or(Type::Signal)` found", call.where)
     sig = []
-    hidden = []
     mder = mir.derives(body, mt_locals, through_calls=False)
     for c in mir.calls(body):
         if c.is_("eq", "ne") and "PartialEq" in c.callee and len(c.args) == 2:
             sides = [("mt" if L.op_in(a, mder) else ("signal" if _is_signal_const(body, a) else None)) for a in c.args]
-            if any(_is_signal_const(body, a) == "?" for a in c.args):
-                hidden.append(c)
             if set(sides) == {"mt", "signal"}:
                 for sb, tt, ft in L.bool_switches_on_call(body, c):
-                    t = tt if c.is_("eq") else ft
+                    t, nt = (tt, ft) if c.is_("eq") else (ft, tt)
                     if L.edge_dominates(body, sb, t, call.b):
                         sig.append(t)
+                        skips.append((sb, nt))
     for sb, t in mir.switches(body):
         arms = L.discr_arms(body, f, sb)
         if arms and arms[1] == L.TYPE and arms[0][0] in mder and "Signal" in arms[2]:
             if L.edge_dominates(body, sb, arms[2]["Signal"], call.b):
                 sig.append(arms[2]["Signal"])
-    ctx.ob(rule, tag + "only-under-msg_type-test", bool(sig),
-           ("the bus call is made only on the equal edge of `msg_type == <Type constant>`" +
-            (" (constant is promoted: its variant is not visible in the facts)" if hidden else " (Type::Signal)")) if sig else
-           "the bus call is not restricted by a test of the rule's message type", call.where)
-    both = [t for t in sig + isb]
-    # innermost: the one dominated by all others
-    inner = None
-    for t in both:
-        if all(mir.block_dominates(body, o, t) for o in both):
-            inner = t
-    return inner
+                for n, tg in list(arms[2].items()) + [("otherwise", arms[3])]:
+                    if n != "Signal" and tg is not None:
+                        skips.append((sb, tg))
+    ctx.ob(rule, tag + "only-for-signal-rules", bool(sig), "the bus call is made only on the equal edge of `msg_type == Type::Signal`" if sig else
+           "the bus call is not restricted to rules whose message type is Signal", call.where)
+    # the skip edges must be exclusive blocks, else avoiding them would hide other paths (fail closed)
+    excl = all(L.sole_pred(body, t, sb) for sb, t in skips)
+    ctx.ob(rule, tag + "skip-edges-exclusive", excl and bool(skips), "the not-a-bus / not-a-signal edges are separate blocks" if excl and skips else
+           "cannot separate the edges that legitimately skip the bus call", call.where)
+    return {t for sb, t in skips} if excl else None
 
 
 def _is_signal_const(body, op):
-    """'Signal' when the operand is visibly Type::Signal; '?' when it is a promoted `&Type` constant (rustc promotes
-    the right-hand side of `msg_type == Type::Signal`; the fact extractor does not export promoted bodies, so the
-    variant is not visible); None otherwise"""
+    """the operand is Type::Signal: a visible aggregate, or the promoted `&Type::Signal` rustc makes of the right-hand
+    side of `msg_type == Type::Signal` (value exported by the extractor as `pv`). Returns False for any other /
+    unknown constant."""
     if L.is_agg(body, op, L.TYPE, "Signal") is not None:
-        return "Signal"
+        return True
     o = mir.origin(body, op)
     k = None
     if o[0] == "const":
@@ -146,10 +149,11 @@ def _is_signal_const(body, op):
         if d and d[0] == "assign" and d[4][0] == "use":
             k = mir.op_const(d[4][1])
         elif d and d[0] == "assign" and d[4][0] == "agg" and d[4][2] == L.TYPE:
-            return d[4][3] if d[4][3] == "Signal" else None
-    if k is not None and k.get("promoted") is not None and (k.get("ty") or "").lstrip("&") == L.TYPE:
-        return "?"
-    return None
+            return d[4][3] == "Signal"
+    if k is not None and k.get("promoted") is not None:
+        pv = k.get("pv")
+        return isinstance(pv, dict) and pv.get("agg") == L.TYPE + "::Signal"
+    return False
 
 
 def after_await_branch(f, body, call):
@@ -171,9 +175,36 @@ def guard_held(ctx, f, body, call, rule, tag):
     if a is None:
         return
     held = [(n, t) for t, n, l in a.saved if n != "__awaitee" and "MutexGuard" in t and "(u64, async_broadcast::InactiveReceiver" in t]
-    ctx.ob("M-GUARD", tag + "subscriptions-guard-held", bool(held),
-           "saved across the await: %s" % [n for n, t in held] if held else
-           "the subscriptions guard is not live across the bus call: a concurrent add/remove of the same rule can interleave", a.where)
+    # rustc's witness keeps a local that was borrowed and later moved out (e.g. `drop(guard)`), so additionally: no move /
+    # drop of the guard local can precede the bus call
+    killed = []
+    for n, t in held:
+        for gl in [l for l in range(len(body.locals)) if body.locals[l][1] == n and "MutexGuard" in body.locals[l][0]]:
+            for kb in guard_kills(body, gl):
+                if call.b in mir.reachable(body, mir.succs(body)[kb]) or kb == call.b:
+                    killed.append((n, kb))
+    ok = bool(held) and not killed
+    ctx.ob("M-GUARD", tag + "subscriptions-guard-held", ok,
+           "the subscriptions guard `%s` is saved across the await and is neither moved nor dropped before the call" % held[0][0] if ok else
+           ("the subscriptions guard is moved / dropped before the bus call (%d site(s))" % len(killed) if held else
+            "the subscriptions guard is not live across the bus call") + ": a concurrent add/remove of the same rule can interleave", a.where)
+
+
+def guard_kills(body, gl):
+    """blocks in which local `gl` is moved out as a whole or dropped"""
+    out = []
+    for bi, blk in enumerate(body.blocks):
+        if blk.get("c"):
+            continue
+        for st in blk["s"]:
+            if st[0] == "=" and any(op[0] == "m" and op[1] == [gl, []] for op in mir.rvalue_operands(st[2])):
+                out.append(bi)
+        t = blk["t"]
+        if t[0] == "call" and any(a[0] == "m" and a[1] == [gl, []] for a in t[1]["args"]):
+            out.append(bi)
+        if t[0] == "drop" and t[1] == [gl, []]:
+            out.append(bi)
+    return out
 
 
 # ------------------------------------------------------------------------------------------ add_match
@@ -192,17 +223,17 @@ def rule_add(ctx, f, am):
         onv = c.b in vac_r
         ctx.ob("M-ADD", "only-on-vacant-edge", onv, "AddMatch is issued only for a rule without an entry (Vacant edge)" if onv else
                "AddMatch is issued although the rule may already be registered (not confined to the Vacant edge)", c.where)
-        inner = signal_conditions(ctx, f, am, "M-ADD", "add:", c)
+        skip = signal_conditions(ctx, f, am, "M-ADD", "add:", c)
         guard_held(ctx, f, am, c, "M-ADD", "add:")
         cont, brk = after_await_branch(f, am, c)
         okq = cont is not None and brk is not None and all(v.b not in mir.reachable(am, [brk]) for v in vins)
         ctx.ob("M-ADD", "failed-AddMatch-inserts-nothing", okq, "the `?` on AddMatch leaves before the entry is inserted" if okq else
                "a failed AddMatch is not propagated before the entry is inserted", c.where)
-        if inner is not None:
-            byp = any(v.b in mir.reachable(am, [inner], avoid={c.b}) for v in vins)
+        if skip is not None:
+            byp = any(v.b in mir.reachable(am, [vac], avoid={c.b} | skip) for v in vins)
             ctx.ob("M-ADD", "signal-rule-registered-before-insert", not byp,
-                   "on a bus, a new signal rule reaches the insert only through AddMatch" if not byp else
-                   "a new signal rule can be inserted without AddMatch", c.where)
+                   "on the Vacant edge the insert is reached only through AddMatch or the not-a-bus / not-a-signal edges" if not byp else
+                   "a new signal rule can be inserted on a bus without (or before) AddMatch", c.where)
     # no AddMatch on the occupied edge is implied by only-on-vacant-edge; also: no second bus call of any kind here
     other = [c for c in mir.calls(am) if c.is_("Connection::call_method") and c not in calls]
     ctx.ob("M-ADD", "no-other-bus-call", not other, "add_match makes no other method call" if not other else
@@ -246,13 +277,13 @@ def rule_remove(ctx, f, rm):
                "RemoveMatch can be issued while other streams still use the rule (not confined to the count == 0 edge)", c.where)
         afterdec = bool(decs) and all(mir.block_dominates(rm, w[0], c.b) for w in decs)
         ctx.ob("M-REMOVE", "after-the-decrement", afterdec, "the decrement precedes RemoveMatch" if afterdec else "RemoveMatch is not preceded by the decrement", c.where)
-        inner = signal_conditions(ctx, f, rm, "M-REMOVE", "remove:", c)
+        skip = signal_conditions(ctx, f, rm, "M-REMOVE", "remove:", c)
         guard_held(ctx, f, rm, c, "M-REMOVE", "remove:")
-        if inner is not None:
-            byp = any(v.b in mir.reachable(rm, [inner], avoid={c.b}) for v in rems)
+        if skip is not None:
+            byp = any(v.b in mir.reachable(rm, [occ], avoid={c.b} | skip) for v in rems)
             ctx.ob("M-REMOVE", "signal-rule-unregistered-before-removal", not byp,
-                   "on a bus, the entry of a signal rule is dropped only after RemoveMatch" if not byp else
-                   "the entry of a signal rule can be dropped without RemoveMatch", c.where)
+                   "the entry is dropped only after RemoveMatch (or over the not-a-bus / not-a-signal edges)" if not byp else
+                   "the entry of a signal rule can be dropped on a bus without (or before) RemoveMatch", c.where)
     other = [c for c in mir.calls(rm) if c.is_("Connection::call_method") and c not in calls]
     ctx.ob("M-REMOVE", "no-other-bus-call", not other, "remove_match makes no other method call" if not other else
            "remove_match makes %d further method call(s)" % len(other), rm.where)
